@@ -288,7 +288,7 @@ func stressSeq(r *rand.Rand) string {
 	var overlap atomic.Int64
 	var mu sync.Mutex
 	seen := map[int][]int{}
-	eb.Subscribe(bus, func(e SEv) {
+	body := func(e SEv) {
 		if inside.Add(1) != 1 {
 			overlap.Add(1)
 		}
@@ -302,7 +302,13 @@ func stressSeq(r *rand.Rand) string {
 		if e.N == 1 && e.Pub == 0 {
 			panic("a Sequential handler that panics must give its turn back")
 		}
-	}, opts...)
+	}
+	viaCtx := r.Intn(2) == 0 // the same guarantees hold for handlers registered with SubscribeContext
+	if viaCtx {
+		eb.SubscribeContext(bus, func(_ context.Context, e SEv) { body(e) }, opts...)
+	} else {
+		eb.Subscribe(bus, body, opts...)
+	}
 	G, N := 2+r.Intn(3), 6
 	var wg sync.WaitGroup
 	for p := 0; p < G; p++ {
@@ -329,7 +335,7 @@ func stressSeq(r *rand.Rand) string {
 		}
 		for i, n := range seen[p] {
 			if n != i {
-				return fmt.Sprintf("Sequential(async=%v) handler: events of publisher %d processed in order %v", async, p, seen[p])
+				return fmt.Sprintf("Sequential(async=%v, SubscribeContext=%v) handler: events of publisher %d processed in order %v", async, viaCtx, p, seen[p])
 			}
 		}
 	}
@@ -393,6 +399,129 @@ func stressHooks(r *rand.Rand) string {
 	return ""
 }
 
+// stressTypes (C02): goroutines working on DIFFERENT event types at the same time (different registry shards): every
+// subscription is found again by the publishes, counts and unsubscribes of its own type
+type ST0 struct{ N int }
+type ST1 struct{ N int }
+type ST2 struct{ N int }
+type ST3 struct{ N int }
+
+func typeWorker[T any](bus *eb.EventBus, mk func(int) T, rounds int) string {
+	for i := 0; i < rounds; i++ {
+		var got atomic.Int64
+		h := func(e T) { got.Add(1) }
+		if err := eb.Subscribe(bus, h); err != nil {
+			return "Subscribe failed: " + err.Error()
+		}
+		eb.Publish(bus, mk(i))
+		if n := eb.HandlerCount[T](bus); n != 1 {
+			return fmt.Sprintf("one handler subscribed for %T, HandlerCount = %d", mk(0), n)
+		}
+		if got.Load() != 1 {
+			return fmt.Sprintf("the handler subscribed for %T received %d of 1 events", mk(0), got.Load())
+		}
+		if err := eb.Unsubscribe[T](bus, h); err != nil {
+			return fmt.Sprintf("Unsubscribe of the handler subscribed for %T: %v", mk(0), err)
+		}
+	}
+	return ""
+}
+
+func stressTypes(r *rand.Rand) string {
+	bus := eb.New()
+	res := make([]string, 4)
+	var wg sync.WaitGroup
+	wg.Add(4)
+	go func() { defer wg.Done(); res[0] = typeWorker(bus, func(i int) ST0 { return ST0{i} }, 40) }()
+	go func() { defer wg.Done(); res[1] = typeWorker(bus, func(i int) ST1 { return ST1{i} }, 40) }()
+	go func() { defer wg.Done(); res[2] = typeWorker(bus, func(i int) ST2 { return ST2{i} }, 40) }()
+	go func() { defer wg.Done(); res[3] = typeWorker(bus, func(i int) ST3 { return ST3{i} }, 40) }()
+	wg.Wait()
+	for _, m := range res {
+		if m != "" {
+			return "four goroutines, each on its own event type: " + m
+		}
+	}
+	return ""
+}
+
+// stressObs (C20): callbacks stay paired when a publish is blocked on a Sequential handler's mutex and its context is
+// cancelled meanwhile, and when handlers panic between ordinary runs
+type pairObs struct {
+	mu                       sync.Mutex
+	hstart, hcomplete, herrs int
+	bad                      string
+	next                     int
+}
+type obsTok struct{ id int }
+
+func (o *pairObs) OnPublishStart(ctx context.Context, t string, e any) context.Context { return ctx }
+func (o *pairObs) OnPublishComplete(ctx context.Context, t string)                     {}
+func (o *pairObs) OnHandlerStart(ctx context.Context, t string, async bool) context.Context {
+	o.mu.Lock()
+	defer o.mu.Unlock()
+	o.hstart++
+	o.next++
+	return context.WithValue(ctx, obsTok{}, o.next)
+}
+func (o *pairObs) OnHandlerComplete(ctx context.Context, d time.Duration, err error) {
+	o.mu.Lock()
+	defer o.mu.Unlock()
+	o.hcomplete++
+	if err != nil {
+		o.herrs++
+	}
+	if ctx.Value(obsTok{}) == nil && o.bad == "" {
+		o.bad = "OnHandlerComplete was given a context that no OnHandlerStart returned"
+	}
+}
+func (o *pairObs) OnPersistStart(ctx context.Context, t string, p int64) context.Context { return ctx }
+func (o *pairObs) OnPersistComplete(ctx context.Context, d time.Duration, err error)     {}
+
+func stressObs(r *rand.Rand) string {
+	obs := &pairObs{}
+	bus := eb.New(eb.WithObservability(obs))
+	hold := make(chan struct{})
+	var panics atomic.Int64
+	eb.Subscribe(bus, func(e SEv) {
+		if e.N == 0 {
+			<-hold // the first invocation keeps the Sequential mutex
+		}
+		if e.N%5 == 4 {
+			panics.Add(1)
+			panic("boom")
+		}
+	}, eb.Sequential())
+	var wg sync.WaitGroup
+	wg.Add(1)
+	go func() { defer wg.Done(); eb.Publish(bus, SEv{0, 0}) }()
+	time.Sleep(200 * time.Microsecond)
+	ctx, cancel := context.WithCancel(context.Background())
+	wg.Add(1)
+	go func() { defer wg.Done(); eb.PublishContext(bus, ctx, SEv{1, 1}) }() // blocks on the handler's mutex
+	time.Sleep(time.Duration(100+r.Intn(300)) * time.Microsecond)
+	cancel() // … and its context ends while it waits
+	close(hold)
+	if !waitTimeout(wg.Wait, 2*time.Second) {
+		return "publishes to a Sequential handler do not return"
+	}
+	for i := 2; i < 12; i++ {
+		eb.Publish(bus, SEv{2, i})
+	}
+	obs.mu.Lock()
+	defer obs.mu.Unlock()
+	if obs.bad != "" {
+		return obs.bad
+	}
+	if obs.hstart != obs.hcomplete {
+		return fmt.Sprintf("%d OnHandlerStart calls, %d OnHandlerComplete calls", obs.hstart, obs.hcomplete)
+	}
+	if int64(obs.herrs) != panics.Load() {
+		return fmt.Sprintf("%d handler invocations panicked, OnHandlerComplete carried an error %d times", panics.Load(), obs.herrs)
+	}
+	return ""
+}
+
 func stressDomain(lines []string) []string {
 	var out []string
 	for _, line := range lines {
@@ -413,6 +542,10 @@ func stressDomain(lines []string) []string {
 			sc = stressSeq
 		case "hooks":
 			sc = stressHooks
+		case "types":
+			sc = stressTypes
+		case "obs":
+			sc = stressObs
 		default:
 			out = append(out, "bad-op "+line)
 			continue
